@@ -299,7 +299,10 @@ Definition request_prog (lay : layout) (r : request) : P :=
       seqs [get_target lay c h;
             Read (c' ++ [h']) (fun n =>
               match n with
-              | Some (F _) => get_many lay c' [h'] false
+              | Some (F _) =>
+                  (* a destination item that cannot be loaded counts as absent: within one collection the move
+                     goes on, across collections has_uid then finds its UID -> 409 *)
+                  if path_eqb c c' then get_many lay c' [h'] false else get_target lay c' h'
               | _ => if path_eqb c c' then Ret else get_many lay c' names' false
               end);
             move lay c h c' h' v exp exp']
